@@ -230,6 +230,20 @@ FieldOrder ==
 (* wrap: "none", "alpha" (Alpha<C, T>) or "prealpha" (PreAlpha<C>): the colour's fields, then alpha *)
 Declared(base, wrap) == IF wrap = "none" THEN FieldOrder[base] ELSE FieldOrder[base] \o <<"alpha">>
 
+(* Positional construction and destructuring (outside the casts proper, same table): `new`, `new_const`, `new_srgb`,   *)
+(* `from_components`, `From<tuple>` place argument i in declared field i, transparency last; `into_components` and      *)
+(* `Into<tuple>` read the fields out in the same order; `with_white_point` / `with_meta` change a phantom parameter only *)
+PositionalForms == {"new", "new_hue", "new_const", "new_srgb", "new_srgb_const", "from_components", "from_tuple",
+                    "into_components", "into_tuple", "with_white_point", "with_meta"}
+PositionalOk(base, wrap, form, names, args, read) ==
+  /\ form \in PositionalForms
+  /\ names = Declared(base, wrap)
+  /\ Len(args) = Len(names)
+  /\ read = args
+(* every colour struct must have been seen through at least these *)
+CtorBases == DOMAIN FieldOrder \ {"Packed1", "Packed4"}
+CtorRequired == {<<b, w, f>> : b \in CtorBases, w \in {"none", "alpha"}, f \in {"new", "from_components", "into_components"}}
+
 -----------------------------------------------------------------------------
 (* The property, as state invariants over every reachable state *)
 
